@@ -95,14 +95,21 @@ PROPS = {
     ),
     'C14': dict(
         level='other',
-        functions=['localcider/backend/seqfileparser.py:SequenceFileParser.' + f for f in ('__validSeq', '__final_validation')],
-        lemmas=['n_keep_strict', 'n_keep_nonneg', 'n_star_nonneg'],
+        functions=['localcider/backend/seqfileparser.py:SequenceFileParser.' + f for f in ('__validSeq', '__final_validation', 'parseSeqFile')],
+        thorough_functions=['localcider/backend/seqfileparser.py:SequenceFileParser.parseSeqFile#three'],
+        lemmas=['n_keep_strict', 'n_keep_nonneg', 'n_keep_nonneg_all', 'n_keep_onto', 'n_star_nonneg', 'n_star_zero', 'nsym_none'],
         native='c14',
         explanation='proved for all lines: __validSeq keeps exactly the residue letters and "*" of a line in order, drops spaces and digits, and raises exactly when another character occurs; '
                     '__final_validation returns the word unchanged without "*", drops a single final "*", raises exactly for a repeated or non-final "*". '
-                    'NOT under contract: parseSeqFile itself (iteration over the lines of a file: list-of-strings values, str.strip and file I/O are outside the executor\'s value domain) and the '
-                    'file branch of the constructors - the bounded native check on real temporary files stands in for the header handling and the concatenation of lines',
-        assumptions=['parseSeqFile line loop, header detection and file reading: bounded native check only'],
+                    'parseSeqFile is under contract for files of 0, 1 and 2 lines (3 lines in the thorough tier), each line a symbolic string of ANY length and content: lines are stripped '
+                    '(str.strip modelled as the slice between the first and last non-white-space character), blank lines skipped, a first header line skipped, and the result is exactly the '
+                    'residue letters of the sequence lines in order (closed-form position of every residue letter: kept characters of earlier lines + kept characters before it; only residue '
+                    'letters occur; length = kept characters, less one for a single final "*"); it raises ALWAYS when a second header line or a foreign character in a sequence line occurs, and '
+                    'otherwise only if a "*" occurs (exactly when: the contract of __final_validation, applied at its call site). The NUMBER of lines is bounded (this is why the level is not '
+                    '"proof"); more lines, real files on disk and the file branch of the constructors are covered by the bounded native check on temporary files',
+        assumptions=['parseSeqFile: number of lines bounded by 2 (quick) / 3 (thorough), line contents unbounded',
+                     'open()/readlines(): the lines are ghost content attached to the file name (the file system is not modelled)',
+                     'str.strip(): ASCII white space exact, beyond ASCII the trusted classifier chr_isspace'],
         design_ref='2 / C14',
     ),
     'C12': dict(
